@@ -110,6 +110,9 @@ func checkC05(c *Ctx) {
 	c.Set("compositions_replayed", int64(n))
 	c.Set("exhaustive", true)
 	c.Set("rule", "every core composition of CoreTree.tla up to the configured depth/enablers, every value sequence of the shared AtomicLevel up to MaxSet changes, every level class, every front end")
+	// the checked entry (with the list of cores that accepted it) is a pooled object: Pools.tla says it goes back after
+	// its cores were written (spec mutant EntryOrder)
+	c.MustTLC(TLCOpts{Module: "Pools", Cfg: "Pools.check", Consts: map[string]string{"EntryOrder": `"put-then-write"`, "KindSet": `{"plain"}`, "MaxGC": "0"}, ExpectViolation: true})
 	for _, f := range ctEntryOverlap(c.Pick(20, 200)) {
 		c.Violation(f.Key, f.What, map[string]interface{}{"scenario": "write-in-flight-overlap"})
 	}
